@@ -3,6 +3,7 @@
 // (scan of `external_body` / `assume_specification` / `uninterp`).
 #![allow(unused_imports, dead_code, unused_variables, non_camel_case_types, non_snake_case, unreachable_patterns, unused_parens, unused_braces, non_upper_case_globals)]
 use vstd::prelude::*;
+use vstd::std_specs::fmt::*;
 verus! {
 
 // R5: panic!(..) -> vx_panic(..): "does not return normally".
@@ -25,6 +26,92 @@ impl Default for Tag {
     fn default() -> (r: Tag)
         ensures r == Tag(7u8)
     { Tag(7u8) }
+}
+
+
+// ---- strings ---------------------------------------------------------------------------
+// C12's "folding only the ASCII letters A-Z/a-z", written out.
+pub open spec fn fold_char(c: char) -> char {
+    if 'A' <= c && c <= 'Z' { ((c as u8) + 32u8) as char } else { c }
+}
+pub open spec fn fold(s: Seq<char>) -> Seq<char> {
+    s.map_values(|c: char| fold_char(c))
+}
+// Assumed std contract (cross-checked at bounded length against the real std code by the Kani C12 harness).
+pub assume_specification[ str::eq_ignore_ascii_case ](a: &str, b: &str) -> (r: bool)
+    ensures r == (fold(a@) == fold(b@));
+
+// Plausible replacements for the calls the templates make get *uninterpreted* results, so that a changed
+// template fails an obligation instead of tripping "unsupported".
+pub uninterp spec fn vx_lower(s: Seq<char>) -> Seq<char>;
+pub uninterp spec fn vx_upper(s: Seq<char>) -> Seq<char>;
+pub uninterp spec fn vx_trim(s: Seq<char>) -> Seq<char>;
+pub assume_specification[ str::to_lowercase ](a: &str) -> (r: String) ensures r@ == vx_lower(a@);
+pub assume_specification[ str::to_uppercase ](a: &str) -> (r: String) ensures r@ == vx_upper(a@);
+pub assume_specification[ str::to_ascii_lowercase ](a: &str) -> (r: String) ensures r@ == fold(a@);
+pub assume_specification[ str::trim ](a: &str) -> (r: &str) ensures r@ == vx_trim(a@);
+
+// Corpus capture type for `default` variants: a String newtype whose From<&str> keeps the input verbatim.
+pub struct Cap(pub String);
+pub uninterp spec fn cap_of(s: Seq<char>) -> Cap;
+impl vstd::std_specs::convert::FromSpecImpl<&str> for Cap {
+    open spec fn obeys_from_spec() -> bool { true }
+    open spec fn from_spec(s: &str) -> Cap { cap_of(s@) }
+}
+impl ::core::convert::From<&str> for Cap {
+    #[verifier::external_body]
+    fn from(s: &str) -> (r: Cap) { Cap(s.to_string()) }
+}
+
+// Corpus fixtures for C18 / default_with (their Rust twins live in the corpus crate's lib.rs)
+pub struct PErr(pub String);
+pub uninterp spec fn err_spec(s: Seq<char>) -> PErr;
+pub fn dw_u8() -> (r: u8) ensures r == 5u8 { 5 }
+pub fn dw_i32() -> (r: i32) ensures r == -3i32 { -3 }
+pub fn dw_tag() -> (r: Tag) ensures r == Tag(9u8) { Tag(9) }
+
+// ---- formatter ghost model (C03 / C11 / C17) ---------------------------------------------
+// fmt_out: everything written so far; fmt_spec: the caller's width/fill/align/precision/flags as one opaque value.
+pub uninterp spec fn fmt_out(f: &core::fmt::Formatter) -> Seq<char>;
+pub uninterp spec fn fmt_spec(f: &core::fmt::Formatter) -> int;
+pub uninterp spec fn pad_str(s: Seq<char>, spec: int) -> Seq<char>;
+pub uninterp spec fn pad_ok(s: Seq<char>, spec: int, pre: Seq<char>) -> bool;
+// "formatted exactly as the &str `s` would be, honouring the caller's format spec"
+pub open spec fn str_fmt_post(s: Seq<char>, fo: &core::fmt::Formatter, ff: &core::fmt::Formatter, r: core::result::Result<(), core::fmt::Error>) -> bool {
+    fmt_spec(ff) == fmt_spec(fo)
+    && ((r is Ok) == pad_ok(s, fmt_spec(fo), fmt_out(fo)))
+    && fmt_out(ff) == fmt_out(fo) + pad_str(s, fmt_spec(fo))
+}
+pub assume_specification[ <str as core::fmt::Display>::fmt ](s: &str, f: &mut core::fmt::Formatter<'_>) -> (r: core::result::Result<(), core::fmt::Error>)
+    ensures str_fmt_post(s@, old(f), final(f), r);
+// writing without padding: a different effect, so that "wrote the name with write_str" is not "formatted like a &str"
+pub assume_specification<'a>[ core::fmt::Formatter::<'a>::write_str ](f: &mut core::fmt::Formatter<'a>, s: &str) -> (r: core::result::Result<(), core::fmt::Error>)
+    ensures fmt_spec(final(f)) == fmt_spec(old(f)), fmt_out(final(f)) == fmt_out(old(f)) + s@;
+
+// Cap's Display / AsRef<str> fixtures: the effect of the inner value's own impl, as an opaque relation / value
+pub uninterp spec fn cap_fmt_post(c: Cap, fo: &core::fmt::Formatter, ff: &core::fmt::Formatter, r: core::result::Result<(), core::fmt::Error>) -> bool;
+pub uninterp spec fn cap_str(c: Cap) -> Seq<char>;
+impl core::fmt::Display for Cap {
+    #[verifier::external_body]
+    fn fmt(&self, f: &mut core::fmt::Formatter<'_>) -> (r: core::result::Result<(), core::fmt::Error>)
+        ensures cap_fmt_post(*self, old(f), final(f), r)
+    { core::fmt::Display::fmt(self.0.as_str(), f) }
+}
+impl DisplaySpecImpl for Cap {
+    open spec fn fmt_req(&self, f: &core::fmt::Formatter<'_>) -> bool { true }
+}
+impl core::convert::AsRef<str> for Cap {
+    #[verifier::external_body]
+    fn as_ref(&self) -> (r: &str)
+        ensures r@ == cap_str(*self)
+    { self.0.as_str() }
+}
+
+// Mirror of strum::ParseError (the corpus crate holds a rustc obligation that the real enum has exactly
+// this one variant); R11 re-points `::strum::` at this module.
+pub mod strum {
+    #[derive(Clone, Copy, PartialEq, Eq)]
+    pub enum ParseError { VariantNotFound }
 }
 
 } // verus!
